@@ -1,8 +1,9 @@
 /-
 Model of `trackpy/linking/partial.py` (`link_partial` L104-148, `reconnect_traj_patch` L151-202).
 
-A table is a list of rows in the order in which `link_partial` holds them after `pandas_sort`
-(stable sort on the frame column).  Each row carries
+A table is a list of rows in the order in which `reconnect_traj_patch` receives them from
+`link_partial` (sorted on the frame column by `pandas_sort`; the harness captures the actual order).
+Each row carries
   * `frame`  — the (integer-coerced) frame number,
   * `old`    — the column `_old_particle` (the label the row had in the table that is being patched),
   * `new`    — the column `particle` at the moment `reconnect_traj_patch` is called: for rows inside
